@@ -360,6 +360,28 @@ pub fn run_c04(ctx: &mut Ctx, replay: Option<&[String]>) {
         let tag2 = if style == 4 { "float-magnitudes-up-to-1e30" } else if style == 5 { "float-infinite-message" } else { "float-working-range" };
         ctx.emit(&format!("c04 f {} {}", ty, pairs_f(&m)), &check_f(ty, &m), deg >= 2, &[tag, ty, tag2]);
     }
+    // checks of weight 255 ... 513 with mostly negative messages (a count of negative inputs, or any per-check counter, kept in 8 bits wraps or
+    // saturates there), all 16 + 8 types
+    for k in 0..ctx.scale(96, 2400) {
+        let deg = *rng.pick(&[255usize, 256, 257, 258, 259, 300, 511, 512, 513]);
+        let negs = *rng.pick(&[deg, deg - 1, deg - 2, 256.min(deg), 255.min(deg), deg / 2]);
+        if k % 3 != 0 {
+            let ty = I8_TYPES[k % 16];
+            let mut m: Vec<(usize, i8)> = (0..deg).map(|i| (i, { let a = 1 + rng.below(if k % 2 == 0 { 127 } else { 20 }) as i8; if i < negs { -a } else { a } })).collect();
+            if rng.chance(1, 2) { m.reverse(); }
+            ctx.emit(&format!("c04 i8 {} {}", ty, msgs_str(&m)), &check_i8(ty, &m), true, &["i8-degree-255..513"]);
+        } else {
+            let ty = F_TYPES[(k / 3) % 8];
+            let strong = rng.chance(1, 2);
+            let mut m: Vec<(usize, f64)> = (0..deg).map(|i| (i, {
+                let a = if strong { 6.0 + 6.0 * rng.f64_unit() } else { 0.5 + 2.5 * rng.f64_unit() };
+                let v = if i < negs { -a } else { a };
+                if ty.ends_with("f32") { (v as f32) as f64 } else { v }
+            })).collect();
+            if rng.chance(1, 2) { m.reverse(); }
+            ctx.emit(&format!("c04 f {} {}", ty, pairs_f(&m)), &check_f(ty, &m), true, &["float-degree-255..513", ty, "float-working-range"]);
+        }
+    }
     // sequences of 2-5 check-node calls on ONE arithmetic object, high degree then low degree
     for k in 0..ctx.scale(6000, 100_000) {
         let ty = F_TYPES[k % 8];
